@@ -18,7 +18,7 @@ RULE = ("(operand norms are additionally scaled by 10^k, k in {-8,-4,0,3,6}, on 
         "||dense(result)-reshape/permute(dense(x))|| <= 4 eps ||x|| + 64 d u prod||C_k||_F (for the tensor to_qtt path, "
         "which truncates cores in isolation: 2 eps prod||C_k||_F per split core). Non-trivial: reshape that splits and "
         "merges or touches a singleton source mode; permutation with >=2 inversions; QTT with >=2 cores split.")
-BUDGET = {"quick": 6000, "thorough": 120000}
+BUDGET = {"quick": 6000, "thorough": 400000}
 FLOORS = {"quick": {"op:reshape": 1200, "op:reshape_ttm": 300, "op:permute": 800, "op:to_qtt": 300, "op:qtt_roundtrip": 200,
                     "trailing_singleton_source": 200, "complex": 1500, "eps_active": 800, "eps_default": 800}}
 ASSUMPTIONS = ["dense reshape is row-major (torch.reshape); for operators rows and columns are regrouped independently",
